@@ -1085,6 +1085,25 @@ mut('c17-getall-skips-none-values', ['C17', 'C16'], OB,
       "                v = getattr(self, p.attr_name)\n                if v is None:\n                    return\n                if p.iprop.sig in marshal.variantClassMap:\n                    v = marshal.variantClassMap[p.iprop.sig](v)\n                r[p.pname] = v")],
     ['C17.D1', 'C16.D3'], note='a readable property is left out depending on its value')
 
+# ---- round 8 -------------------------------------------------------------------------
+mut('c19-float-inferred-as-boolean', ['C19'], M,
+    [("    elif isinstance(pobj, float):\n        return 'd'", "    elif isinstance(pobj, float):\n        return 'b'")],
+    ['C19.D2'], note='a basic Python type inferred as the code of another D-Bus type')
+mut('c20-queue-reset-on-connection-authenticated', ['C20'], PR,
+    [("        self._authenticated = True\n        self.connectionAuthenticated()", "        self._authenticated = True\n        self._receivedFDs = []\n        self.connectionAuthenticated()")],
+    ['C20.D3'])
+mut('c12-cancel-forgets-only-on-reply', ['C12'], OB,
+    [("            self.objHandler.conn.delMatch(rule_id)\n            self._signalRules.remove(rule_id)",
+      "            self.objHandler.conn.delMatch(rule_id).addCallback(\n                lambda _: self._signalRules.discard(rule_id))")],
+    ['C12.D5'])
+mut('ok-c12-cancel-forget-first', ['C12'], OB,
+    [("            self.objHandler.conn.delMatch(rule_id)\n            self._signalRules.remove(rule_id)",
+      "            self._signalRules.discard(rule_id)\n            self.objHandler.conn.delMatch(rule_id)")],
+    kind='benign')
+mut('c08-timeout-keeps-entry-when-called', ['C08', 'C09'], CL,
+    [("        del self._pendingCalls[serial]\n        d.errback(error.TimeOut('Method call timed out'))",
+      "        if d.called:\n            return\n        del self._pendingCalls[serial]\n        d.errback(error.TimeOut('Method call timed out'))")],
+    ['C08.D3', 'C09.D3'])
 # ---- the seeded changes of independent sub-agents (seeded/<id>/patch.diff) as break entries:
 # each must make the check of the property it was written against exit 1
 def _load_seeds():
